@@ -20,16 +20,16 @@ from vlib import VERIF
 #   sims: (simulation module, behaviours quick, behaviours thorough, depth)
 #   mc: (exhaustive config module, quick?, timeout s)
 PIPE = {
-    "C01": dict(clauses=["C01_"], sims=[("Sim_multi", 60, 600, 170), ("Sim_multi_crash", 40, 500, 170), ("Sim_multi_dev", 20, 300, 170)], mc=[("MC_c01q", 400, "quick"), ("MC_c01", 1500, "thorough")]),
-    "C02": dict(clauses=["C02_"], sims=[("Sim_base", 50, 500, 150), ("Sim_conn", 50, 500, 150), ("Sim_multi", 20, 300, 170)], mc=[("MC_c02", 900, "both"), ("MC_c07p", 2400, "thorough")], corpus=[("MC_c07p", 150, 2000)], crashpoints=True),
-    "C04": dict(clauses=["C04_"], sims=[("Sim_conn", 60, 800, 150), ("Sim_rollback", 30, 400, 170), ("Sim_dev_conn", 50, 600, 170)], mc=[("MC_c04q", 400, "quick"), ("MC_c04", 1500, "thorough"), ("MC_c04f", 1500, "thorough")], corpus=[("MC_c04f", 150, 3000)], data=True, focus=r'^<<"(exec|cfg)"', repeat=6),
-    "C05": dict(clauses=["C05_"], sims=[("Sim_base", 60, 600, 150), ("Sim_multi", 40, 400, 170), ("Sim_rollback", 30, 400, 170)], mc=[("MC_c05", 900, "both"), ("MC_c05r", 900, "both")], data=True, focus=r'^<<"prop", "\w+", "DI'),
-    "C06": dict(clauses=["C06_"], sims=[("Sim_rollback", 100, 1000, 170), ("Sim_rbconn", 30, 400, 170)], mc=[("MC_c06", 900, "both")], data=True, crashpoints=True, focus=r'"rollback"'),
-    "C07": dict(clauses=["C07_"], sims=[("Sim_crash", 80, 800, 150), ("Sim_multi_crash", 40, 400, 170)], mc=[("MC_c07", 900, "both"), ("MC_c07p", 2400, "thorough")], corpus=[("MC_c07p", 150, 2000)], crashpoints=True),
-    "C08": dict(clauses=["C08_"], sims=[("Sim_client", 90, 900, 150), ("Sim_base", 30, 300, 150), ("Sim_dev", 30, 300, 150), ("Sim_rollback", 20, 200, 170)], mc=[("MC_c08", 900, "both")], delays=True),
-    "C09": dict(clauses=["C09_"], sims=[("Sim_base", 60, 800, 150), ("Sim_dev", 40, 400, 150), ("Sim_multi", 30, 300, 170), ("Sim_rbconn", 40, 400, 170), ("Sim_multi_dev", 20, 300, 170)], mc=[("MC_c09", 900, "both"), ("MC_c09r", 900, "both")]),
-    "C10": dict(clauses=["C10_"], sims=[("Sim_conn", 100, 1000, 150)], mc=[("MC_c10", 900, "both"), ("MC_c04f", 1500, "thorough")], corpus=[("MC_c04f", 150, 3000)], focus=r'^<<"(exec|cfg|mast)"', repeat=6),
-    "C11": dict(clauses=["C11_"], sims=[("Sim_dev", 100, 1000, 150), ("Sim_multi", 20, 200, 170), ("Sim_multi_dev", 40, 500, 170), ("Sim_dev_conn", 30, 400, 170)], mc=[("MC_c11", 900, "both")], crashpoints=True),
+    "C01": dict(clauses=["C01_"], sims=[("Sim_multi", 60, 300, 170), ("Sim_multi_crash", 40, 250, 170), ("Sim_multi_dev", 20, 150, 170)], mc=[("MC_c01q", 400, "quick"), ("MC_c01", 1500, "thorough")]),
+    "C02": dict(clauses=["C02_"], sims=[("Sim_base", 50, 250, 150), ("Sim_conn", 50, 250, 150), ("Sim_multi", 20, 150, 170)], mc=[("MC_c02", 900, "both")], corpus=[("MC_c07p", 150, 1500)], crashpoints=True),
+    "C04": dict(clauses=["C04_"], sims=[("Sim_conn", 60, 400, 150), ("Sim_rollback", 30, 200, 170), ("Sim_dev_conn", 50, 300, 170)], mc=[("MC_c04q", 400, "quick"), ("MC_c04", 1500, "thorough"), ("MC_c04f", 1500, "thorough")], corpus=[("MC_c04f", 150, 1500)], data=True, focus=r'^<<"(exec|cfg)"', repeat=6),
+    "C05": dict(clauses=["C05_"], sims=[("Sim_base", 60, 300, 150), ("Sim_multi", 40, 200, 170), ("Sim_rollback", 30, 200, 170)], mc=[("MC_c05", 900, "both"), ("MC_c05r", 900, "both")], data=True, focus=r'^<<"prop", "\w+", "DI'),
+    "C06": dict(clauses=["C06_"], sims=[("Sim_rollback", 100, 500, 170), ("Sim_rbconn", 30, 200, 170)], mc=[("MC_c06", 900, "both")], data=True, crashpoints=True, focus=r'"rollback"'),
+    "C07": dict(clauses=["C07_"], sims=[("Sim_crash", 80, 400, 150), ("Sim_multi_crash", 40, 200, 170)], mc=[("MC_c07", 900, "both"), ("MC_c07p", 2400, "thorough")], corpus=[("MC_c07p", 150, 1500)], crashpoints=True),
+    "C08": dict(clauses=["C08_"], sims=[("Sim_client", 90, 450, 150), ("Sim_base", 30, 150, 150), ("Sim_dev", 30, 150, 150), ("Sim_rollback", 20, 100, 170)], mc=[("MC_c08", 900, "both")], delays=True),
+    "C09": dict(clauses=["C09_"], sims=[("Sim_base", 60, 400, 150), ("Sim_dev", 40, 200, 150), ("Sim_multi", 30, 150, 170), ("Sim_rbconn", 40, 200, 170), ("Sim_multi_dev", 20, 150, 170)], mc=[("MC_c09", 900, "both"), ("MC_c09r", 900, "both")]),
+    "C10": dict(clauses=["C10_"], sims=[("Sim_conn", 100, 500, 150)], mc=[("MC_c10", 900, "both")], corpus=[("MC_c04f", 150, 1500)], focus=r'^<<"(exec|cfg|mast)"', repeat=6),
+    "C11": dict(clauses=["C11_"], sims=[("Sim_dev", 100, 500, 150), ("Sim_multi", 20, 100, 170), ("Sim_multi_dev", 40, 250, 170), ("Sim_dev_conn", 30, 200, 170)], mc=[("MC_c11", 900, "both")], crashpoints=True),
 }
 
 EPILOGUE = [{"k": "drain"}, {"k": "heal"}, {"k": "drain"}, {"k": "observe"}, {"k": "probe"}, {"k": "drain"}, {"k": "observe"}]
@@ -289,7 +289,7 @@ def check(prop, tier, replay_file=None):
                 # one real-code run per distinct reconcile context the exhaustive exploration met (all of them in the
                 # thorough tier, a seeded sample in the quick tier)
                 ctxs = sorted(cover)
-                want = conf.get("cover", (150, 4000))[0 if tier == "quick" else 1]
+                want = conf.get("cover", (150, 1500))[0 if tier == "quick" else 1]
                 if len(ctxs) > want:
                     # the contexts in which the reconcile branches the property is about decide (validation for C05,
                     # rollbacks for C06, ...) are taken first, up to two thirds of the sample; the rest is a seeded sample
@@ -615,8 +615,8 @@ def crashpoint_variants(scenarios, origin, tier, sd, tracedir):
     base.sort(key=weight)
     head, tail = base[:3], base[3:]
     rnd.shuffle(tail)
-    base = head + tail[: (2 if tier == "quick" else 40)]
-    budget = 120 if tier == "quick" else 12000
+    base = head + tail[: (2 if tier == "quick" else 12)]
+    budget = 120 if tier == "quick" else 2000
 
     def actor(st):
         if st["c"] == "prop":
